@@ -40,6 +40,7 @@ sub!(c16, "c16.rs");
 sub!(c13, "c13.rs");
 sub!(c10, "c10.rs");
 sub!(c07, "c07.rs");
+sub!(c18, "c18.rs");
 
 pub async fn main() -> Result<(), easy_error::Terminator> {
     let args: Vec<String> = std::env::args().collect();
@@ -68,6 +69,7 @@ pub async fn main() -> Result<(), easy_error::Terminator> {
         "c13" => c13::run(&mut out).await,
         "c10" => c10::run(&mut out).await,
         "c07" => c07::run(&mut out).await,
+        "c18" => c18::run(&mut out).await,
         _ => {
             eprintln!("unknown mode {}", mode);
             std::process::exit(2);
